@@ -368,6 +368,16 @@ def r18_2(ctx, repo):
             if isinstance(sel, ast.Name):
                 d = [a for a in _defs(fn, sel.id) if a.lineno <= c.lineno]
                 sel = d[-1].value if d else sel
+            # the positions of a mask select the same columns as the mask
+            if isinstance(sel, ast.Subscript) and isinstance(
+                    sel.slice, ast.Constant) and sel.slice.value == 0 \
+                    and isinstance(sel.value, ast.Call) and U(
+                        sel.value.func) in ('np.where', 'np.nonzero') \
+                    and len(sel.value.args) == 1:
+                sel = sel.value.args[0]
+            if isinstance(sel, ast.Call) and U(sel.func) in (
+                    'np.flatnonzero',) and len(sel.args) == 1:
+                sel = sel.args[0]
         loopvars = set()
         cur = getattr(c, '_parent', None)
         while cur is not None and cur is not fn:
